@@ -383,11 +383,20 @@ class ArmAnalyzer:
     def _match(self, e, env, conds, depth):
         s = self._expr(e["e"], env, conds, depth)
         vals = []
+        earlier = []
         for arm in e["arms"]:
             env2 = dict(env)
             c = ("matches", q.show_pat(arm["pat"]), s)
             self._bind_pat(arm["pat"], s, env2)
-            vals.append(self._block(arm["body"], env2, conds + [(c, True)], depth))
+            if arm["pat"]["k"] in ("PWild", "PIdent") and arm.get("guard") is None:
+                # a catch-all arm is taken exactly when none of the arms before it is
+                if arm["pat"]["k"] == "PIdent":
+                    env2[arm["pat"]["name"]] = s
+                acond = conds + [(pc, False) for pc in earlier]
+            else:
+                acond = conds + [(c, True)]
+            earlier.append(c)
+            vals.append(self._block(arm["body"], env2, acond, depth))
         return ("match", s, vals, [q.show_pat(arm["pat"]) for arm in e["arms"]])
 
     def _call(self, e, env, conds, depth):
@@ -398,6 +407,23 @@ class ArmAnalyzer:
             p = f["p"]
             if p == "Some" and len(args) == 1:
                 return ("Some", args[0])
+            if p in env and env[p][0] == "lit" and "::" in env[p][1] and len(args) == 1:
+                # a function value handed down through a parameter (`accept = Ordering::is_lt`), applied to its argument
+                return ("call", q.last_seg(env[p][1]), args[0], [])
+            inl = e.get("inl")
+            if isinstance(inl, dict) and not inl.get("closure") and depth < self.max_inline:
+                # a small free function of the same file: evaluate its body with the parameters bound
+                henv = dict(env)  # the expansion has simple parameters already replaced by the caller's expressions
+                for name, a in zip(inl.get("params", []), args):
+                    if name:
+                        henv[name] = a
+                self.events.append(Ev("inline", (inl["callee"],), conds, L))
+                before = len(self.events)
+                v = self._block(inl["body"], henv, conds, depth + 1)
+                for ev in self.events[before:]:
+                    if ev.kind == "ret":
+                        ev.kind = "helper-ret"
+                return v if v is not None else ("lit", "()")
             if p.endswith("::new") or p.endswith("::new_with_data"):
                 ty = p.split("::")[0]
                 if ty.endswith("Object"):
